@@ -182,7 +182,7 @@ def churn_C12(impl, rng):
         i = g.nnames
         g.nnames += 1
         sp = GW.rand_spec(rng, i)
-        sp.update({'type': 'defense', 'def': status, 'ttc': None, 'tags': rng.choice([[], [], ['suppress']])})
+        sp.update({'type': 'defense', 'name': f's{i}', 'def': status, 'ttc': None, 'tags': rng.choice([[], [], ['suppress']])})   # fresh full name (guard of add_node)
         g.do(('new', sp))
         h = len(g.w.nodes) - 1
         g.do(('add_node', h, None))
